@@ -9,42 +9,75 @@ VALS = ['', 'x', 'y', 'x y', 'xy', 'x-y', 'X', 'y x']
 TEXTS = ['x', ' ', 'xy', ' \n']
 
 
-def rand_doc(rng, nmax=20, xml=None, frag=None, names=NAMES, kinds=('e', 'e', 'e', 't', 'c', 'cd')):
+def rand_doc(rng, nmax=20, xml=None, frag=None, names=NAMES, kinds=('e', 'e', 'e', 't', 'c', 'cd'), twins=0.35):
+    """a random tree as a Dom.tla record (JSON shape).  With probability `twins` some element subtree is repeated verbatim as its
+    own next sibling: structurally identical twins (bs4 compares Tags by markup, so == / hash / dict-key slips show up there)."""
     xml = rng.random() < 0.25 if xml is None else xml
     frag = rng.random() < 0.2 if frag is None else frag
-    n = rng.randint(2, nmax)
+    budget = [rng.randint(2, nmax)]
+
+    def attrs():
+        at = []
+        for nm in ('t', 'class', 'id'):
+            if rng.random() < 0.35:
+                v = rng.choice(VALS)
+                lst = nm == 'class' and ' ' in v and not v.startswith(' ') and rng.random() < 0.5
+                at.append({'k': cps(nm), 'ns': [], 'local': cps(nm), 'v': cps(v), 'list': lst})
+        return at
+
+    def make(depth):
+        budget[0] -= 1
+        k = rng.choice(kinds) if depth > 0 else 'e'
+        if k != 'e':
+            return {'k': k, 'text': rng.choice(TEXTS)}
+        node = {'k': 'e', 'name': rng.choice(names), 'attrs': attrs(), 'kids': []}
+        while budget[0] > 0 and rng.random() < (0.75 if depth < 3 else 0.3):
+            node['kids'].append(make(depth + 1))
+        return node
+
+    def size(n):
+        return 1 + sum(size(c) for c in n.get('kids', []))
+
+    tops = [make(0)]
+    while not frag and budget[0] > 0:
+        budget[0] -= 0
+        tops.append(make(1) if rng.random() < 0.5 else make(0))
+    if rng.random() < twins:
+        # duplicate one element (with its subtree) right after itself
+        cands = []
+
+        def walk(lst):
+            for i, n in enumerate(lst):
+                if n['k'] == 'e':
+                    cands.append((lst, i))
+                    walk(n['kids'])
+        walk(tops if not frag else tops[0]['kids'])
+        cands = [(lst, i) for lst, i in cands if size(lst[i]) <= 6]
+        if cands:
+            import copy
+            lst, i = rng.choice(cands)
+            lst.insert(i + 1, copy.deepcopy(lst[i]))
     d = {'parent': [], 'kind': [], 'name': [], 'ns': [], 'pfx': [], 'attrs': [], 'text': [],
          'top': 'frag' if frag else 'doc', 'xml': xml}
-    spine = [0]
-    for i in range(1, n + 1):
-        if frag and i == 1:
-            p, k = 0, 'e'
-        else:
-            cands = [s for s in spine if not (frag and s == 0)]
-            # prefer deeper nodes a bit
-            p = rng.choice(cands + cands[-2:])
-            k = rng.choice(kinds)
+
+    def flat(n, p):
         d['parent'].append(p)
-        d['kind'].append(k)
-        if k == 'e':
-            d['name'].append(cps(rng.choice(names)))
-            at = []
-            for nm in ('t', 'class', 'id'):
-                if rng.random() < 0.35:
-                    v = rng.choice(VALS)
-                    lst = nm == 'class' and ' ' in v and not v.startswith(' ') and rng.random() < 0.5
-                    at.append({'k': cps(nm), 'ns': [], 'local': cps(nm), 'v': cps(v), 'list': lst})
-            d['attrs'].append(at)
+        d['kind'].append(n['k'])
+        idx = len(d['parent'])
+        d['ns'].append([])
+        d['pfx'].append([])
+        if n['k'] == 'e':
+            d['name'].append(cps(n['name']))
+            d['attrs'].append(n['attrs'])
             d['text'].append([])
+            for c in n['kids']:
+                flat(c, idx)
         else:
             d['name'].append([])
             d['attrs'].append([])
-            d['text'].append(cps(rng.choice(TEXTS)))
-        d['ns'].append([])
-        d['pfx'].append([])
-        # new spine: ancestors of i (if element) else spine up to p
-        idx = spine.index(p)
-        spine = spine[:idx + 1] + ([i] if k == 'e' else [])
+            d['text'].append(cps(n['text']))
+    for t in (tops[:1] if frag else tops):
+        flat(t, 0)
     return d
 
 
